@@ -102,3 +102,9 @@ Proof.
   destruct (skip_batches_spec (full_batches n nb) pre (full_batches_pos n nb) ltac:(lia)) as [A B].
   split; [lia | exact B].
 Qed.
+
+(* ---- (3) solver shift ---- *)
+Lemma shift_consistent sigma lam : reported_eigenvalue sigma sigma lam == lam.
+Proof. unfold reported_eigenvalue. ring. Qed.
+Lemma shift_inconsistent sigma lam : ~ sigma == 0 -> ~ reported_eigenvalue 0 sigma lam == lam.
+Proof. unfold reported_eigenvalue. intros H E. apply H. lra. Qed.
